@@ -94,7 +94,7 @@ def run(ctx: RunCtx) -> None:
             refs.append(r)
         world.rec.clear()
         owner: dict[int, int] = {c.tag: k for k, s in enumerate(scripts) for c in s}
-        sched = Scheduler(ctx.ch, ctx.log, trace_files={T.__file__, m_server.__file__}, preempt_budget=3, horizon=6000, start_delays=(0.4, 3.0),
+        sched = Scheduler(ctx.ch, ctx.log, trace_files={T.__file__, m_server.__file__}, preempt_budget=3, horizon=6000, start_delays=(0.4, 3.0), sync_preempts=2, sync_odds=8,
                           wall_limit=90.0, max_steps=600_000)
         thread_of_event: list[tuple[int, int, str]] = []
 
